@@ -339,12 +339,87 @@ fn extreme_phase(thorough: bool) -> Phase {
     }
 }
 
+/// evaluation right next to a root: (x-r)^n expanded (integer coefficients, exactly representable) at x = r(1+d).
+/// Massive cancellation, the exact value is tiny compared with the terms; the bound is relative to the terms.
+fn near_root_phase(_thorough: bool) -> Phase {
+    let roots: Vec<f64> = vec![3.0, -7.0, 100.0, 1000.0, -2000.0, 1e5];
+    let deltas: Vec<f64> = vec![0.0, 3.53e-8, -2e-6, 1e-12, 2.220446049250313e-16, -1e-4];
+    let nr = roots.len();
+    Phase {
+        name: "next-to-a-root",
+        units: nr * 4,
+        split: 0,
+        body: Box::new(move |unit, cx| {
+            let r = roots[unit / 4];
+            let n = 1 + unit % 4; // (x-r)^n, n = 1..4
+            // binomial expansion with exact integer arithmetic
+            let mut c = vec![1i128];
+            for _ in 0..n {
+                let mut d = vec![0i128; c.len() + 1];
+                for (i, &ci) in c.iter().enumerate() {
+                    d[i + 1] += ci;
+                    d[i] -= ci * (r as i128);
+                }
+                c = d;
+            }
+            let cf: Vec<f64> = c.iter().map(|&v| v as f64).collect();
+            if c.iter().zip(&cf).any(|(a, b)| *a != *b as i128) {
+                return Ok(()); // coefficients not exactly representable: skip
+            }
+            let x = r * (1.0 + deltas[cx.choose(deltas.len())]);
+            let formk = cx.choose(3);
+            let (form, arg) = match formk {
+                0 => (Form::N(n + 1), x),
+                1 => (Form::P(n), x),
+                _ => (Form::N(n + 1 + 3), x), // the same polynomial with three trailing zero coefficients
+            };
+            let mut cc = cf.clone();
+            if formk == 2 {
+                cc.extend([0.0, 0.0, 0.0]);
+            }
+            let got = eval(form, &cc, arg);
+            cx.evals(1);
+            let xd = dy(x);
+            let mut s = Dy::zero();
+            let mut m = Dy::zero();
+            let mut p = Dy::from_i64(1);
+            for &ci in &cc {
+                let t = dy(ci).mul(&p);
+                s = s.add(&t);
+                m = m.add(&t.abs());
+                p = p.mul(&xd);
+            }
+            let deg = cc.len() - 1;
+            let bound = m.mul_i(4 * (deg as i64 + 2)).mul_pow2(-53);
+            cx.nontrivial();
+            let detail = |g: serde_json::Value| json!({"form": form.name(), "polynomial": format!("(x - {r})^{n}"), "coefficients": fjs(&cc), "argument": fj(x), "exact_value~": s.to_f64(), "bound~": bound.to_f64(), "got": g});
+            if cx.sampling() {
+                cx.sample(detail(json!(format!("{:?}", got))));
+            }
+            match got {
+                Err(pn) => Err(Fail::new(format!("evaluate panicked: {pn}"), detail(json!(pn)))),
+                Ok(g) if !g.is_finite() => Err(Fail::new("evaluate returned a non-finite value next to a root", detail(fj(g)))),
+                Ok(g) => {
+                    let err = dy(g).sub(&s).abs();
+                    if !bound.is_zero() {
+                        cx.ratio(err.to_f64() / bound.to_f64());
+                    }
+                    if err.le(&bound) { Ok(()) } else { Err(Fail::new("evaluation error next to a root exceeds 4(n+2)*2^-53*sum|c_i||x|^i", detail(fj(g)))) }
+                }
+            }
+        }),
+        classes: vec![],
+        bounds: json!({"polynomials": "(x-r)^n expanded exactly, r in {3,-7,100,1000,-2000,1e5}, n = 1..4, as PolyN, as Poly<n> and as PolyN with three trailing zero coefficients",
+            "arguments": "x = r(1+d), d in {0, 3.53e-8, -2e-6, 1e-12, 2^-52, -1e-4}"}),
+    }
+}
+
 pub fn check(thorough: bool, _seed: u64) -> Check {
     Check {
         id: "C01",
         rule: "choice tree: (form, argument) unit x one coefficient per lane; each leaf is one (form, coefficient vector, argument) evaluated by the real evaluate; non-trivial = >=2 non-zero coefficients and argument not in {0,1}; coefficient and argument alphabets are duplicate-free so distinct leaves are distinct inputs".into(),
         assumptions: vec!["f64::ln (glibc) within 1 ulp".into(), "partial terms of the alphabets neither overflow nor underflow".into()],
-        phases: vec![exact_phase(thorough), rich_phase(thorough), log_phase(thorough), extreme_phase(thorough)],
+        phases: vec![exact_phase(thorough), rich_phase(thorough), log_phase(thorough), extreme_phase(thorough), near_root_phase(thorough)],
         extra: Default::default(),
         controls: vec![("oracle rejects a value that is off by more than the bound", Box::new(|| {
             let c: [f64; 3] = [1.0, -1.0, 0.1];
